@@ -670,6 +670,14 @@ fn to_list(ctx: &Context, top: &Number, list: &[&str]) -> Result<Vec<NumberParts
                 ctx, top, first,
             ))));
         }
+        for unit in &units {
+            if unit.value == Numeric::zero() {
+                return Err(QueryError::generic(format!(
+                    "Units in unit list must not be zero: <{}>",
+                    unit.show(ctx)
+                )));
+            }
+        }
     }
     let mut value = top.value.clone();
     let mut out = vec![];
